@@ -220,6 +220,8 @@ type Project struct {
 	ConfigPath string
 	NoConfig   bool
 	GoModText  string // overrides the default go.mod text when non-empty
+	// Env holds MOCKERY_* settings that belong to the world's (fixed) environment.
+	Env map[string]string
 }
 
 func (p *Pkg) ImportPath(module string) string {
